@@ -82,7 +82,13 @@ func main() {
 				seed = s
 			}
 		}
-		os.Exit(runProperty(prop, tier, seed, ""))
+		only := ""
+		for i := 3; i < len(os.Args); i++ {
+			if os.Args[i] == "--only" && i+1 < len(os.Args) {
+				only = os.Args[i+1] // debugging: run one program (full name "<index>#<name>") in one shard
+			}
+		}
+		os.Exit(runProperty(prop, tier, seed, only))
 	case "replay":
 		if len(os.Args) < 3 {
 			die(2, "usage: vcheck replay <file> [-n N]")
@@ -701,6 +707,9 @@ func runProperty(prop, tier string, seed int64, only string) int {
 	}
 	buildS := time.Since(t0).Seconds()
 	nshards := runtime.NumCPU()
+	if only != "" {
+		nshards = 1
+	}
 	if v := os.Getenv("VCHECK_SHARDS"); v != "" {
 		nshards, _ = strconv.Atoi(v)
 	}
@@ -906,6 +915,11 @@ func replay(path string, n int) int {
 		}
 	}
 	fmt.Printf("replay property=%s prog=%s runs=%d reproduced=%d other=%v inconclusive=%d\n", r.Property, r.Prog, a.evals, hits, other, len(a.inconcl))
+	for i, m := range a.inconcl {
+		if i < 2 {
+			fmt.Printf("  inconclusive: %s\n", m)
+		}
+	}
 	if hits > 0 {
 		fmt.Printf("VIOLATION property=%s replay=%s\n", r.Property, path)
 		return 1
